@@ -512,13 +512,18 @@ def cmdJsonText (s : Text) (idxs : List Nat) (axisMd : Text) (ax : Axis) : Excep
         .ok (['{'] ++ (parts.map (· ++ [','])).flatten ++ newData ++ [','] ++ axisMd ++ [','] ++
              otherAxis ++ ['}'])
 
+/-- `x.lstrip("[] \n\t")` -/
+def lstripF (x : Text) : Text := x.dropWhile (fun c => stripSet.contains c)
+
 /-- the field level of the slicer: the data field after both splits, every field still carrying
-its padding (brackets, blanks, newlines) -/
+its padding (brackets, blanks, newlines).  The observation path tests the row field as it comes out
+of `strip_f(rcv).split(',')` — stripped on the left only — and then remaps the fully stripped field;
+the sample path strips every field first. -/
 def sliceFields (render : Nat → Text) (recs : List (Text × Text × Text)) (sk : List Nat) (ax : Axis) :
     List (Text × Text × Text) :=
   let keys := sk.map render
   match ax with
-  | .obs => (recs.filter (fun f => keys.contains (stripF f.1))).map
+  | .obs => (recs.filter (fun f => keys.contains (lstripF f.1))).map
       (fun f => (render (keys.idxOf (stripF f.1)), stripF f.2.1, stripF f.2.2))
   | .samp => (recs.filter (fun f => keys.contains (stripF f.2.1))).map
       (fun f => (stripF f.1, render (keys.idxOf (stripF f.2.1)), stripF f.2.2))
